@@ -42,6 +42,7 @@ import (
 
 	git "gopkg.in/src-d/go-git.v4"
 	"gopkg.in/src-d/go-git.v4/plumbing"
+	"gopkg.in/src-d/go-git.v4/plumbing/filemode"
 	"gopkg.in/src-d/go-git.v4/plumbing/object"
 	"gopkg.in/src-d/go-git.v4/utils/merkletrie"
 	hercules "gopkg.in/src-d/hercules.v10"
@@ -95,7 +96,28 @@ func parsePlCommit(s Sx) plCommit {
 	return cm
 }
 
+// pathName: the path of file number pid.  Round 4 (R4-1, R4-2, R4-5): the numbers 10..40 are names that differ only in bytes a
+// normalisation would collapse, share prefixes, or sit at decimal widths (as in harness/cmd/c08); a bijection, the model
+// sees numbers only.
+var nastyPaths = map[int]string{10: "P1", 11: "p1 ", 12: "p\xff", 13: "p\xef\xbf\xbd", 14: "\xef\xbb\xbfp1", 15: "p\t1", 16: "p1\r", 17: "d1/P3",
+	18: "D1/p3", 19: "p\xc3", 20: "p\u00a01", 21: "p1\u2028", 22: " p1", 23: "p\u30001", 24: "p10", 25: "p11", 26: "p99", 27: "p100", 28: "p101",
+	29: "p999", 30: "p1000", 31: "p1001", 32: "p\xc0\xaf1", 33: "p\xed\xa0\x801", 34: "d2/S/p2", 35: "d2/s/P2", 36: "p", 37: "pp1", 38: "p1\r\n",
+	39: "d2/s/p2 ", 40: "p1.lnk"}
+var nastyPathNo = func() map[string]int {
+	m := map[string]int{}
+	for i, n := range nastyPaths {
+		m[n] = i
+	}
+	if len(m) != len(nastyPaths) {
+		panic("nastyPaths: duplicate")
+	}
+	return m
+}()
+
 func pathName(pid int) string {
+	if n, ok := nastyPaths[pid]; ok {
+		return n
+	}
 	switch pid % 3 {
 	case 0:
 		return fmt.Sprintf("d1/p%d", pid)
@@ -106,18 +128,53 @@ func pathName(pid int) string {
 }
 
 func unpathName(s string) int {
+	if k, ok := nastyPathNo[s]; ok {
+		return k
+	}
 	pid, _ := strconv.Atoi(s[strings.LastIndex(s, "p")+1:])
 	return pid
 }
 
+// nastyBlobs (R4-1, R4-4; runs without the burndown item only: its input is the real FileDiff): empty, BOM only, white space
+// only, invalid UTF-8 next to a real U+FFFD, CR / CRLF, NUL; every content belongs to one blob number.
+var nastyBlobs = map[int]string{3: "", 6: "\xef\xbb\xbf", 9: " \n\t \n", 12: "\xff\xfe\n", 15: "a\r\nb\rc\n", 18: "\x00\x01\x00", 21: "\xef\xbf\xbd\n",
+	24: "\xff\n", 27: "\xef\xbb\xbfblob 27\n", 30: "\xc3", 33: "BLOB 34\n", 36: "\u00a0\u2028\u3000", 39: "blob 39", 42: "blob 39\n"}
+var nastyContent = false
+
 // blobData: a text of 1 + bid%7 lines; consecutive versions of a file share most lines
 func blobData(bid int) []byte {
+	if d, ok := nastyBlobs[bid]; ok && nastyContent {
+		return []byte(d)
+	}
 	var sb strings.Builder
 	fmt.Fprintf(&sb, "blob %d\n", bid)
 	for i := 0; i < bid%7; i++ {
 		fmt.Fprintf(&sb, "line %d\n", i)
 	}
 	return []byte(sb.String())
+}
+
+// blobMode: the entry kind is a function of the blob number (R4-4; runs without the burndown item)
+func blobMode(bid int) filemode.FileMode {
+	if nastyContent {
+		switch bid % 7 {
+		case 2:
+			return filemode.Executable
+		case 4:
+			return filemode.Symlink
+		}
+	}
+	return filemode.Regular
+}
+
+// commitWhen: author and committer time differ (the items read the committer's) and carry non-zero zone offsets (R4-3)
+var plZones = []int{0, 19800, -28800, 50400, -43200, 20700, 3600}
+
+func commitWhen(id int, t int64) (author, committer time.Time) {
+	skew := []int64{0, 3 * 86400, -400 * 86400, 3600, -1}[id%5]
+	author = time.Unix(t+skew, 0).In(time.FixedZone("", plZones[id%len(plZones)]))
+	committer = time.Unix(t, 0).In(time.FixedZone("", plZones[(id/2+3)%len(plZones)]))
+	return
 }
 
 const plBase = int64(1262304000) // 2010-01-01 00:00:00 UTC
@@ -1003,6 +1060,7 @@ func runCase(in caseIn) []Sx {
 	}
 	w := &world{in: in, byID: map[int]int{}, blobID: map[plumbing.Hash]int{}, commitID: map[plumbing.Hash]int{},
 		treeID: map[plumbing.Hash]int{}, lin: map[int][]int{}, instOf: map[int]int{}, curStep: -1, scale: in.kind == "run-scale"}
+	nastyContent = !in.bd
 	specs := make([]synth.CommitSpec, len(in.commits))
 	for i, cm := range in.commits {
 		if _, dup := w.byID[cm.id]; dup {
@@ -1013,7 +1071,8 @@ func runCase(in caseIn) []Sx {
 		if in.people {
 			au = fmt.Sprintf("dev%d", cm.id%3)
 		}
-		sp := synth.CommitSpec{AuthorName: au, AuthorEmail: au + "@x", AuthorWhen: time.Unix(cm.time, 0).UTC(), Message: fmt.Sprintf("c%d", cm.id)}
+		aw, cw := commitWhen(cm.id, cm.time)
+		sp := synth.CommitSpec{AuthorName: au, AuthorEmail: au + "@x", AuthorWhen: aw, CommitterWhen: cw, Message: fmt.Sprintf("c%d", cm.id)}
 		for _, p := range cm.parents {
 			if j, ok := w.byID[p]; ok && j < i {
 				sp.Parents = append(sp.Parents, j)
@@ -1021,7 +1080,7 @@ func runCase(in caseIn) []Sx {
 		}
 		for _, e := range cm.tree {
 			data := blobData(e[1])
-			sp.Files = append(sp.Files, synth.FileSpec{Path: pathName(e[0]), Data: data})
+			sp.Files = append(sp.Files, synth.FileSpec{Path: pathName(e[0]), Data: data, Mode: blobMode(e[1])})
 			w.blobID[plumbing.ComputeHash(plumbing.BlobObject, data)] = e[1]
 		}
 		specs[i] = sp
@@ -1029,6 +1088,10 @@ func runCase(in caseIn) []Sx {
 	repo, objs := synth.BuildRepo(specs)
 	w.repo, w.objs = repo, objs
 	for i, o := range objs {
+		// go-git writes a negative time stamp as 0; the decoded commit object is given the intended times (see harness/cmd/c08)
+		if aw, cw := commitWhen(in.commits[i].id, in.commits[i].time); aw.Unix() < 0 || cw.Unix() < 0 {
+			o.Author.When, o.Committer.When = aw, cw
+		}
 		w.commitID[o.Hash] = in.commits[i].id
 		if _, ok := w.treeID[o.TreeHash]; !ok {
 			w.treeID[o.TreeHash] = in.commits[i].id
@@ -1184,6 +1247,75 @@ type histGen struct {
 	nextPid  int
 	fixed    bool // no new files (large cases)
 	wild     bool // arbitrary trees (deletions, the same blob under several paths); else every line of development edits its own files
+	tmode    int  // round 4 (R4-3): 0 = as before; else a time regime, see nextTime / baseTime
+}
+
+const (
+	sane1990   = int64(631152000)  // the "suspicious timestamp" constant of TicksSinceStart.Consume
+	y2038      = int64(2147483647) // 2^31-1
+	y2106      = int64(4294967295) // 2^32-1
+	y2020      = int64(1583366400)
+	wallFuture = int64(1830000000) // end of 2027: later than the wall clock of the runs (a constant: reproducible streams)
+	tmZero     = 1                 // bogus (before 1990) times near the roots, every line of development jumps to its own sane date
+	tmPre1970  = 2
+	tmEpoch    = 3
+	tm1990     = 4
+	tm2038     = 5
+	tm2106     = 6
+	tmFuture   = 7
+	tmEqual    = 8
+	tmDecr     = 9
+	nTmodes    = 10
+)
+
+// baseTime: the time of the roots in the regime
+func baseTime(rng *rand.Rand, tmode int) int64 {
+	around := func(c int64) int64 { return c + []int64{-86401, -86400, -2, -1, 0, 1, 2, 86399, 86400}[rng.Intn(9)] }
+	switch tmode {
+	case tmZero:
+		return []int64{0, 0, 0, 1, -1, 86400, sane1990 - 1, -86400 * 365}[rng.Intn(8)]
+	case tmPre1970:
+		return -86400*365*4 + rng.Int63n(86400*3)
+	case tmEpoch:
+		return around(0) - rng.Int63n(3)*86400
+	case tm1990:
+		return around(sane1990)
+	case tm2038:
+		return around(y2038)
+	case tm2106:
+		return around(y2106)
+	case tmFuture:
+		return wallFuture + []int64{-1, 0, 1, 86400 * 365, 86400 * 3650}[rng.Intn(5)]
+	case tmDecr:
+		return y2020
+	}
+	return plBase + int64(rng.Intn(86400*3))
+}
+
+// nextTime: the committer time of the next commit of a line of development whose newest time is prev
+func (g *histGen) nextTime(prev int64) int64 {
+	rng, tick := g.rng, int64(3600*g.size)
+	switch g.tmode {
+	case tmZero:
+		if prev < sane1990 {
+			if rng.Intn(100) < 45 {
+				return prev + []int64{0, 0, 1, tick, -1}[rng.Intn(5)]
+			}
+			return []int64{y2020, plBase, sane1990, sane1990 + 1}[rng.Intn(4)] + rng.Int63n(20*tick)
+		}
+	case tmEqual:
+		return prev + []int64{0, 0, 0, 1, -1, tick, tick - 1, tick + 1, -tick}[rng.Intn(9)]
+	case tmDecr:
+		if rng.Intn(100) < 80 {
+			return prev - rng.Int63n(3*tick)
+		}
+		return prev + rng.Int63n(2*tick)
+	}
+	dt := rng.Int63n(3 * tick)
+	if rng.Intn(100) < 15 {
+		dt = -rng.Int63n(2 * tick)
+	}
+	return prev + dt
 }
 
 func (g *histGen) treeOf(id int) map[int]int {
@@ -1259,7 +1391,13 @@ func (g *histGen) add(l *line, parents []int) int {
 			l.time = t
 		}
 	}
-	l.time += dt
+	if g.tmode != 0 {
+		if len(parents) > 0 { // the regime replaces the default step; a root carries the base time of its line
+			l.time = g.nextTime(l.time)
+		}
+	} else {
+		l.time += dt
+	}
 	id := len(g.commits) + 1
 	g.commits = append(g.commits, plCommit{id: id, parents: append([]int{}, parents...), time: l.time, tree: sortedTree(m)})
 	l.tip = id
@@ -1297,13 +1435,20 @@ func (g *histGen) grow(ls []*line, lens []int) {
 // which the trunk is forked arity ways (2..5, sometimes nested, sometimes up to 9), the arms grow side by side
 // (1..maxArm commits each: long arms make the other branches sleep when the hibernation distance is small) and are
 // merged again (octopus or one after the other); an arm may stay unmerged.
-func genRootsForks(rng *rand.Rand, size, nroots, sections, maxArm int, wild bool) []plCommit {
-	g := &histGen{rng: rng, size: size, wild: wild}
+func genRootsForks(rng *rand.Rand, size, nroots, sections, maxArm int, wild bool, tmode int) []plCommit {
+	g := &histGen{rng: rng, size: size, wild: wild, tmode: tmode}
 	base := plBase + int64(rng.Intn(86400*3))
+	if tmode != 0 {
+		base = baseTime(rng, tmode)
+	}
 	var roots []*line
 	var lens []int
 	for i := 0; i < nroots; i++ {
-		roots = append(roots, &line{time: base + int64(rng.Intn(86400*2))})
+		off := int64(rng.Intn(86400 * 2))
+		if tmode == tmZero || tmode == tmEqual {
+			off = 0
+		}
+		roots = append(roots, &line{time: base + off})
 		lens = append(lens, 1+rng.Intn(maxArm))
 	}
 	// the trunk exists before the others in half of the cases
@@ -1385,9 +1530,12 @@ func genRootsForks(rng *rand.Rand, size, nroots, sections, maxArm int, wild bool
 
 // fromShape decorates a commit graph (parents[c] < c) with times and trees: every commit that has one parent at most
 // continues the line of development of its first parent if it is that parent's first child, else it starts a new one
-func fromShape(rng *rand.Rand, size int, parents [][]int) []plCommit {
-	g := &histGen{rng: rng, size: size}
+func fromShape(rng *rand.Rand, size int, parents [][]int, tmode int) []plCommit {
+	g := &histGen{rng: rng, size: size, tmode: tmode}
 	base := plBase + int64(rng.Intn(86400*3))
+	if tmode != 0 {
+		base = baseTime(rng, tmode)
+	}
 	lineOf := map[int]*line{}
 	used := map[int]bool{}
 	for _, ps := range parents {
@@ -1412,6 +1560,8 @@ func fromShape(rng *rand.Rand, size int, parents [][]int) []plCommit {
 	return g.commits
 }
 
+var timeRegimes = true
+
 func randomCase(rng *rand.Rand) caseIn {
 	in := caseIn{kind: "run", size: []int{24, 24, 1, 168}[rng.Intn(4)], dist: rng.Intn(4), opts: 1 + rng.Intn(3)}
 	in.bd = rng.Intn(100) < 55
@@ -1427,21 +1577,39 @@ func randomCase(rng *rand.Rand) caseIn {
 	if rng.Intn(20) == 0 {
 		nroots = 5 + rng.Intn(2)
 	}
+	// round 4 (R4-3 x R4-6): four runs in ten live in a time regime (with the burndown item: the contiguous ones only, its
+	// ticks have 14 bits), a third of those with a tick size of 5 h / 25 h / 30 days
+	tmode := 0
+	if timeRegimes && rng.Intn(10) < 4 {
+		tmode = 1 + rng.Intn(nTmodes-1)
+		if in.bd && tmode == tmZero {
+			tmode = tmEpoch
+		}
+		if rng.Intn(3) == 0 {
+			in.size = []int{5, 25, 720}[rng.Intn(3)]
+		}
+	}
 	switch x := rng.Intn(100); {
 	case x < 70:
-		in.commits = genRootsForks(rng, in.size, nroots, rng.Intn(3), 1+rng.Intn(5), !in.bd && rng.Intn(4) == 0)
+		in.commits = genRootsForks(rng, in.size, nroots, rng.Intn(3), 1+rng.Intn(5), !in.bd && rng.Intn(4) == 0, tmode)
 		in.kind = fmt.Sprintf("run-r%d", nroots)
+		if tmode != 0 {
+			in.kind = fmt.Sprintf("run-t%d-r%d", tmode, nroots)
+		}
 	case x < 85:
 		in.commits = fromShape(rng, in.size, synth.GenOctopusShape(rng, synth.OctoOpts{Roots: 1 + rng.Intn(3), Merges: 1 + rng.Intn(2),
-			MinPar: 2, MaxPar: 5, MaxArm: 4, ExtraHead: true, SubMerge: true}))
+			MinPar: 2, MaxPar: 5, MaxArm: 4, ExtraHead: true, SubMerge: true}), tmode)
 		in.kind = "run-octo"
 	case x < 93:
-		in.commits = fromShape(rng, in.size, pl.WideGraph(rng, 14))
+		in.commits = fromShape(rng, in.size, pl.WideGraph(rng, 14), tmode)
 		in.kind = "run-wide"
 	default:
 		h := synth.GenHist(rng, synth.GenOpts{MaxCommits: 6 + rng.Intn(12), SingleHead: rng.Intn(2) == 0, SameTick: true, Paths: 1, Authors: 1})
-		in.commits = fromShape(rng, in.size, h.Parents)
+		in.commits = fromShape(rng, in.size, h.Parents, tmode)
 		in.kind = "run-gen"
+	}
+	if tmode != 0 && !strings.HasPrefix(in.kind, "run-t") {
+		in.kind += fmt.Sprintf("-t%d", tmode)
 	}
 	return in
 }
@@ -1571,7 +1739,7 @@ func main() {
 		defer pprof.StopCPUProfile()
 	}
 	var err error
-	baseDir, err = os.MkdirTemp("", "c08run-")
+	baseDir, err = os.MkdirTemp("", "c08run \u00a0\u00e9\xff%d\t-") // R4-1: white space, non-ASCII and invalid UTF-8 in the hibernation directory
 	if err != nil {
 		panic(err)
 	}
